@@ -18,7 +18,7 @@ def wfInvoke (L : Lim) (i : Invoke) : Bool :=
   wfStr L i.externalIdLocation && wfId i.finalize && wfOptCommon L i.content && wfParams L i.params &&
   wfStrs L i.nameList
 
-theorem Reads.invoke {i : Invoke} (h : wfInvoke small i = true) :
+theorem Reads.invoke {i : Invoke} (h : wfInvoke typeLim i = true) :
     Reads readInvoke (bytesOf (opsInvoke i)) i := by
   obtain ⟨invokeId, parentStateName, docId, srcExpr, src, typeExpr, typeName, externalIdLocation,
     autoforward, finalize, content, params, nameList⟩ := i
@@ -66,7 +66,7 @@ theorem tflags_cond (o w c k) : (tflags o w c k / 4 % 2 = 1) ↔ c = true := by
 theorem tflags_content (o w c k) : (tflags o w c k / 8 % 2 = 1) ↔ k = true := by
   cases o <;> cases w <;> cases c <;> cases k <;> decide
 
-theorem Reads.transition {t : Transition} (h : wfTransition small t = true) :
+theorem Reads.transition {t : Transition} (h : wfTransition typeLim t = true) :
     Reads readTransition (bytesOf (opsTransition t)) t := by
   obtain ⟨id, docId, source, target, events, ttype, wildcard, cond, content⟩ := t
   simp only [wfTransition, Bool.and_eq_true] at h
@@ -177,7 +177,7 @@ def wfOptDoneData (L : Lim) : Option DoneData → Bool
   | some d => wfDoneData L d
 
 theorem Reads.optDoneData {o : Option DoneData} {c : Prop} [Decidable c] (hc : c ↔ o.isSome = true)
-    (h : wfOptDoneData small o = true) :
+    (h : wfOptDoneData typeLim o = true) :
     Reads (if c then (do let d ← readDoneData; Pure.pure (some d)) else Pure.pure none)
       (bytesOf (opsOptDoneData o)) o := by
   cases o with
@@ -197,7 +197,7 @@ def wfState (L : Lim) (s : State) : Bool :=
   wfU L s.invoke.length && s.invoke.all (wfInvoke L) && wfIds L s.history && wfDataPairs L s.data &&
   wfId s.parent && wfOptDoneData L s.donedata
 
-theorem Reads.state {s : State} (h : wfState small s = true) :
+theorem Reads.state {s : State} (h : wfState typeLim s = true) :
     Reads readState (bytesOf (opsState s)) s := by
   obtain ⟨id, docId, name, historyType, isParallel, isFinal, initial, states, onentry, onexit,
     transitions, invoke, history, data, parent, donedata⟩ := s
